@@ -31,6 +31,11 @@ def main(tier, seed):
             c = seqcommon.gen_case(seed, i, tier, focus='fail' if i % 3 else 'rels', tag='c13')
             c['want_op_calls'] = True
             c['_base'] = True
+            if i % 3 == 0:
+                # creations that link collection members first and are refused by a later one-to-one
+                # attribute, with members reached as unloaded references
+                c['variant'] = 'group_owner'
+                c['knobs']['fetch'] = 2
             yield c
             i += 1
 
